@@ -146,19 +146,23 @@ theorem established_qinv {s1 : Sys} (hi : AgentC06.Inv s1.a ∧ AgentC06.Inv s1.
     exact MarkOK.fresh (hmarks p hp)
 
 /-- induction over the schedule of an exchange in which no nomination with value 0 is issued -/
-theorem sched_runs {K : Ev → Bool} {R : Hist → Sys → Prop} {D : Hist → Sys → Dgram → Prop} (ok : SchedOK K R D)
-    {h : Hist} {s : Sys} (q : R h s) (ex : List SysEv) (hex : ExchangeK K s ex) (hz : ∀ x ∈ (histFrom h s ex).issued, 0 < x.1) :
+theorem sched_runsZ {K : Ev → Bool} {R : Hist → Sys → Prop} {D : Hist → Sys → Dgram → Prop} {Z : List Nomination → Prop}
+    (ok : SchedOKZ K R D Z) (hZ : ∀ l l', l <+: l' → Z l' → Z l)
+    {h : Hist} {s : Sys} (q : R h s) (ex : List SysEv) (hex : ExchangeK K s ex) (hz : Z (histFrom h s ex).issued) :
     R (histFrom h s ex) (Sys.runs s ex) := by
   induction ex generalizing h s with
   | nil => exact q
   | cons e es ih =>
     obtain ⟨hk, hsess⟩ := hex.head
-    have hz1 : ∀ x ∈ (hstepSys h s e).issued, 0 < x.1 := by
-      intro x hx
-      exact hz x ((histFrom_issued_prefix _ _ es).subset hx)
+    have hz1 : Z (hstepSys h s e).issued := hZ _ _ (histFrom_issued_prefix _ _ es) hz
     have q1 := sched_run ok q e hk hsess hz1
     simp only [Sys.runs, List.foldl_cons, histFrom]
     exact ih q1 hex.tail hz
+
+theorem sched_runs {K : Ev → Bool} {R : Hist → Sys → Prop} {D : Hist → Sys → Dgram → Prop} (ok : SchedOK K R D)
+    {h : Hist} {s : Sys} (q : R h s) (ex : List SysEv) (hex : ExchangeK K s ex) (hz : ∀ x ∈ (histFrom h s ex).issued, 0 < x.1) :
+    R (histFrom h s ex) (Sys.runs s ex) :=
+  sched_runsZ ok (fun _ _ hp hl x hx => hl x (hp.subset hx)) q ex hex hz
 
 /-- … the invariant along every exchange -/
 theorem qinv_runs {nat : List (Nat × Nat)} {h : Hist} {s : Sys} (q : QInv nat h s) (ex : List SysEv)
